@@ -34,6 +34,7 @@ def main():
         return 0
     uname = sys.argv[2]; both = '--both' in sys.argv
     u = [x for x in units if x.name == uname][0]
+    reg.current_unit = u
     res = {'unit': u.name, 'file': u.file, 'qual': u.qual, 'status': 'ok', 'obligations': [], 'assumptions': [],
            'trusted': list(reg.trusted), 'note': u.note}
     t0 = time.time()
@@ -65,9 +66,22 @@ def main():
             res['status'] = 'vacuous'; res['detail'] = 'zero obligations generated'
         # cover / canary: some path is satisfiable together with the axioms
         only = os.environ.get('PYVC_ONLY')
-        for ob in obs:
+        shard = None
+        for a in sys.argv:
+            if a.startswith('--shard='): shard = tuple(int(x) for x in a[8:].split('/'))
+        res['generated'] = len(obs)
+        undecided_siblings = {}
+        for idx, ob in enumerate(obs):
             if only and only not in ob.name: continue
-            solve.discharge(ob, ax, both=both)
+            if shard is not None and idx % shard[1] != shard[0]: continue
+            import re as _re
+            basen = _re.sub(r'/path\d+$', '', ob.name)
+            if undecided_siblings.get(basen, 0) >= 2:
+                # two sibling paths of the same clause already exhausted every solver: do not spend the budget again
+                ob.verdict = 'undecided'; ob.by = 'skipped: 2 sibling paths of this clause are already undecided'; ob.ms = 0
+            else:
+                solve.discharge(ob, ax, both=both)
+                if ob.verdict == 'undecided': undecided_siblings[basen] = undecided_siblings.get(basen, 0) + 1
             if os.environ.get('PYVC_DUMP') and ob.verdict != 'discharged':
                 s_ = z3.Solver()
                 for a in ax: s_.add(a)
@@ -102,6 +116,12 @@ def main():
         res['status'] = 'vacuous'; res['detail'] = str(ex)
     except Unsupported as ex:
         res['status'] = 'unsupported'; res['detail'] = str(ex)
+    except z3.Z3Exception as ex:
+        # a sort error while building a term: the changed code uses values in a way the encoding does not cover
+        res['status'] = 'unsupported'; res['detail'] = 'encoding error (%s): %s' % (ex, traceback.format_exc()[-600:])
+    except (KeyError, AttributeError, TypeError) as ex:
+        # typically a contract clause referring to a local/field that no longer exists or changed its type
+        res['status'] = 'anchor-lost'; res['detail'] = 'contract could not be evaluated on the current source (%r): %s' % (ex, traceback.format_exc()[-600:])
     except Exception as ex:
         res['status'] = 'crash'; res['detail'] = traceback.format_exc()
     res['wall_s'] = round(time.time() - t0, 3)
